@@ -133,21 +133,86 @@ def segs_equal(a, b):
 # the regex subset
 # ----------------------------------------------------------------------------
 
-_CLASS = _re.compile(r"^(\^?)\[(\^?)((?:[^\]\\]|\\.)+)\]$")
+_UNI = {}
+
+
+def _unicode_ranges(kind):
+    """code point ranges of the unicode-aware escapes of python's `re` on str patterns: d (Nd), w (alnum or '_'), s"""
+    if kind not in _UNI:
+        import sys
+        import unicodedata
+        if kind == "d":
+            pred = lambda c: unicodedata.category(c) == "Nd"
+        elif kind == "w":
+            pred = lambda c: c.isalnum() or c == "_"
+        else:
+            pred = lambda c: c.isspace() or c in "\x1c\x1d\x1e\x1f"
+        ranges, start = [], None
+        for cp in range(sys.maxunicode + 1):
+            if 0xD800 <= cp <= 0xDFFF:
+                ok = False
+            else:
+                ok = pred(chr(cp))
+            if ok and start is None:
+                start = cp
+            elif not ok and start is not None:
+                ranges.append((start, cp - 1))
+                start = None
+        if start is not None:
+            ranges.append((start, sys.maxunicode))
+        _UNI[kind] = ranges
+    return _UNI[kind]
+
+
+def _complement(ranges):
+    out, prev = [], 0
+    for lo, hi in sorted(ranges):
+        if lo > prev:
+            out.append((prev, lo - 1))
+        prev = max(prev, hi + 1)
+    if prev <= MAXCP:
+        out.append((prev, MAXCP))
+    return out
+
+
+def _escape_ranges(ch):
+    if ch in "dws":
+        return list(_unicode_ranges(ch))
+    if ch in "DWS":
+        return _complement(_unicode_ranges(ch.lower()))
+    if ch in ".^$*+?{}[]\\|()-/":
+        return [(ord(ch), ord(ch))]
+    raise Unsupported(f"regex escape \\{ch}")
 
 
 def _parse(pattern):
-    m = _CLASS.match(pattern)
-    if not m:
+    """supported: optional '^' anchor followed by ONE character set: '[...]' (ranges, negation, \\d \\w \\s escapes) or a
+    single escape such as '\\W'"""
+    p = pattern
+    anchored = p.startswith("^")
+    if anchored:
+        p = p[1:]
+    if len(p) == 2 and p[0] == "\\":
+        return anchored, False, _escape_ranges(p[1])
+    if not (p.startswith("[") and p.endswith("]")) or len(p) < 3:
         raise Unsupported(f"regex {pattern!r}")
-    anchored, neg, body = m.group(1) == "^", m.group(2) == "^", m.group(3)
+    body = p[1:-1]
+    neg = body.startswith("^")
+    if neg:
+        body = body[1:]
     ranges = []
     i = 0
     while i < len(body):
         c = body[i]
         if c == "\\":
-            raise Unsupported(f"regex escape in {pattern!r}")
-        if i + 2 < len(body) and body[i + 1] == "-":
+            if i + 1 >= len(body):
+                raise Unsupported(f"regex {pattern!r}")
+            ranges += _escape_ranges(body[i + 1])
+            i += 2
+            continue
+        if c == "]":
+            raise Unsupported(f"regex {pattern!r}")
+        if i + 2 < len(body) and body[i + 1] == "-" and body[i + 2] != "\\":
             ranges.append((ord(c), ord(body[i + 2])))
             i += 3
         else:
@@ -168,6 +233,8 @@ class _Match:
 def match(pattern, string, flags=0):
     if isinstance(string, str) and "⟦sym" not in string:
         return _re.match(pattern, string, flags)
+    if flags & ~_re.UNICODE:
+        raise Unsupported("regex flags")
     anchored, neg, ranges = _parse(pattern)
     segs = to_segs(string)
     length, at = compact(segs, 1)
@@ -178,6 +245,8 @@ def match(pattern, string, flags=0):
 def sub(pattern, repl, string, count=0, flags=0):
     if isinstance(string, str) and "⟦sym" not in string:
         return _re.sub(pattern, repl, string, count, flags)
+    if flags & ~_re.UNICODE:
+        raise Unsupported("regex flags")
     anchored, neg, ranges = _parse(pattern)
     if anchored or count or len(repl) != 1:
         raise Unsupported("re.sub form")
@@ -190,5 +259,28 @@ def sub(pattern, repl, string, count=0, flags=0):
     return SCat(out)
 
 
-compile = _re.compile
+class SymPattern:
+    """re.compile(...) result usable on symbolic strings"""
+
+    def __init__(self, pattern, flags=0):
+        self.pattern, self.flags = pattern, flags
+        self._real = _re.compile(pattern, flags)
+
+    def match(self, string, *a):
+        return match(self.pattern, string, self.flags)
+
+    def sub(self, repl, string, count=0):
+        return sub(self.pattern, repl, string, count, self.flags)
+
+    def __getattr__(self, name):
+        return getattr(self._real, name)
+
+
+def compile(pattern, flags=0):
+    return SymPattern(pattern, flags)
+
+
 escape = _re.escape
+ASCII = A = _re.ASCII
+IGNORECASE = I = _re.IGNORECASE
+UNICODE = U = _re.UNICODE
